@@ -66,7 +66,11 @@ def real_case(draw, max_tasks=7, flags=(), outcomes="some", jobs=(None, 1, 2, 2,
     for i, o in case.get("outcomes", {}).items():
         if "launch" in o:
             case["tasks"][int(i)].pop("run", None)
+            if case["tasks"][int(i)]["kind"] not in graph.PROC_KINDS:
+                continue    # (a combine whose output directory is blocked: not in this layer)
             o = {"exit": 10 + int(i)}
+        if "rmout" in o:
+            continue        # (awkward exits of virtual children: not in this layer)
         oc[i] = o
     case["outcomes"] = {} if signal_mode else oc
     case["tape"] = []
